@@ -54,6 +54,8 @@ LocationOK(r, e) ==
        /\ e.locs[k].col <= lens[e.locs[k].line] + 2
        /\ (e.key # "" /\ keyLines # {}) => e.locs[k].line \in keyLines
        /\ (e.key = "" /\ nameLines # {}) => e.locs[k].line \in nameLines
+       \* the request was refused for an injected directive defect: the harness knows on which line(s) it stands
+       /\ (e.key = "" /\ "offLines" \in DOMAIN r /\ r.offLines # <<>>) => e.locs[k].line \in Range(r.offLines)
 
 WellFormed(r) ==
   [ keys     |-> Range(r.keys) \subseteq {"data", "errors"} /\ Range(r.keys) # {},
